@@ -558,3 +558,41 @@ def thread_data_maker(prog):
     if f is None:
         f = prog.require_func('snoopy_tsrm_ctor')
     return inline.inlined(prog, f)
+
+
+def pointer_flow(prog, seed):
+    """where the pointers designated by `seed` (a predicate on nodes) travel between functions:
+    ({function key: ids of the parameters that can receive one}, seed predicate extended by the calls of program
+    functions that return one).  Flow-insensitive fixed point over PtrTaint."""
+    from engine.dataflow import PtrTaint
+    params = {}
+    returns = set()
+
+    def seed2(n):
+        return seed(n) or (n.k == 'CallExpr' and n.get('callee') in returns)
+    changed = True
+    rounds = 0
+    while changed and rounds < 10:
+        changed = False
+        rounds += 1
+        for f in prog.functions:
+            if f.cfg_error:
+                continue
+            pt = PtrTaint(f, seed2, params.get(f.key, ()))
+            for c in f.calls():
+                t = prog.func(c.get('callee'), f.tu) if c.get('callee') else None
+                if t is None:
+                    continue
+                for i, a in enumerate(c.ch[1:]):
+                    if a is not None and i < len(t.params) and pt.is_derived(a):
+                        s_ = params.setdefault(t.key, set())
+                        if t.params[i]['id'] not in s_:
+                            s_.add(t.params[i]['id'])
+                            changed = True
+            if f.name not in returns:
+                for r in C.return_nodes(f):
+                    if r.ch and r.ch[0] is not None and pt.is_derived(r.ch[0]):
+                        returns.add(f.name)
+                        changed = True
+                        break
+    return params, seed2
